@@ -44,20 +44,43 @@ func nonNegSummary(p *load.Prog) func(v ssa.Value) bool {
 			}
 			if su.CalleeIs(&call.Call, "strconv", "Atoi") && x.Index == 0 {
 				// Atoi of a regexp group that admits digits only: no sign, saturates on overflow
-				base, k, ok := su.ElemOf(call.Call.Args[0])
-				if !ok {
-					return false
+				digitsOnly := func(a ssa.Value) bool {
+					base, k, ok := su.ElemOf(a)
+					if !ok {
+						return false
+					}
+					_, pat, ok := submatchOf(base)
+					if !ok {
+						return false
+					}
+					sub, err := relang.Group(pat, int(k))
+					if err != nil {
+						return false
+					}
+					_, _, cl, ok := relang.IsRepeatOfClass(sub)
+					return ok && cl('0') && !cl('-') && !cl('+') && !cl('a') && !cl(' ')
 				}
-				_, pat, ok := submatchOf(base)
-				if !ok {
-					return false
+				// the text is a parameter of a conversion helper (parseLevel(s)): every caller hands over such a group
+				if prm, isPrm := call.Call.Args[0].(*ssa.Parameter); isPrm {
+					h := prm.Parent()
+					pi := -1
+					for i, q := range h.Params {
+						if q == prm {
+							pi = i
+						}
+					}
+					n := 0
+					for _, caller := range p.Repo {
+						for _, cs := range su.CallsTo(caller, h) {
+							n++
+							if pi < 0 || pi >= len(cs.Call.Args) || !digitsOnly(cs.Call.Args[pi]) {
+								return false
+							}
+						}
+					}
+					return n > 0
 				}
-				sub, err := relang.Group(pat, int(k))
-				if err != nil {
-					return false
-				}
-				_, _, cl, ok := relang.IsRepeatOfClass(sub)
-				return ok && cl('0') && !cl('-') && !cl('+') && !cl('a') && !cl(' ')
+				return digitsOnly(call.Call.Args[0])
 			}
 			if cal := call.Call.StaticCallee(); cal != nil && p.InRepo(cal) {
 				return resultNonNeg(cal, x.Index, depth+1)
